@@ -2935,6 +2935,39 @@ Section Scan.
       - unfold unwind; cbn; intros; discriminate.
     Qed.
 
+    (* a combinator none of whose results is final (a stream that can be refilled: the groups) finishes only by unwinding, which also drops it *)
+    Lemma poll_unfinished w pid np : LiveI w -> Q (cs w) -> (forall o, final o = false) -> dropped (poll w pid np) = false ->
+      finished (poll w pid np) = finished w.
+    Proof.
+      intros HL HQ Hfin. unfold poll.
+      assert (Hmf : forall w1 o, mark_final w1 o = w1) by (intros w1 o; unfold mark_final; rewrite Hfin; reflexivity).
+      destruct (pre_exit (cs w)) as [o|]; [rewrite Hmf; reflexivity|].
+      set (w0 := begin_poll w pid np).
+      assert (HL0 : LiveI w0) by (apply (LiveI_frame w); auto).
+      destruct (pre_any (cs w0) && negb (any_ready w0)); [reflexivity|].
+      destruct (order (cs w0)) as [[is s1]|] eqn:Eo; [|unfold unwind; cbn; intros; discriminate].
+      assert (HL1 : LiveI (set_cs w0 s1)) by (apply LiveI_cs; [apply (order_slots _ _ _ Eo)|apply (order_stable (cs w0) is s1 HQ Eo)|exact HL0]).
+      assert (HQ1 : Q (cs (set_cs w0 s1))) by (cbn; eapply Q_order; eauto).
+      assert (Hin : forall i, In i is -> i < N (set_cs w0 s1)).
+      { intros i Hi. unfold N; cbn. rewrite (order_slots (cs w0) is s1 Eo). apply (order_bound (cs w0) is s1 HQ Eo i Hi). }
+      destruct (scan_live is (set_cs w0 s1) pid HL1 HQ1 Hin) as [(_ & _ & _ & _ & S4 & _) _].
+      destruct (scan (set_cs w0 s1) is pid) as [w1|w1|w1 o|w1]; cbn [vworld] in S4.
+      - destruct (finish (cs w1)) as [s2 [x|]]; rewrite ?Hmf; cbn; intros _; exact S4.
+      - cbn. intros _. exact S4.
+      - rewrite Hmf. cbn. intros _. exact S4.
+      - unfold unwind; cbn; intros; discriminate.
+    Qed.
+    Lemma round_unfinished w : Inv w -> LiveI w -> (forall o, final o = false) -> finished w = false -> dropped (round w) = false -> finished (round w) = false.
+    Proof.
+      intros HI HL Hfin Hf. unfold round, run_ops. rewrite fold_left_app. cbn [fold_left].
+      destruct (run_fires (seq 0 (N w)) w w HI HL eq_refl eq_refl) as (I2 & L2 & C2 & S2 & H2 & P2 & D2 & F2 & M2 & B2 & X2).
+      unfold run_ops in *. set (wf := fold_left step_op (fair_fires w (seq 0 (N w))) w) in *.
+      cbn [step_op]. rewrite F2, Hf. cbn [orb]. destruct (dropped wf) eqn:Ed; [intros X; congruence|].
+      intros Hd. rewrite (poll_unfinished wf _ _ L2 ltac:(apply I2) Hfin Hd). congruence.
+    Qed.
+    Lemma rounds_add a : forall b w, rounds (a + b) w = rounds b (rounds a w).
+    Proof. induction a as [|a IH]; intros b w; [reflexivity|]. cbn [Nat.add rounds]. apply IH. Qed.
+
     Theorem next_result w0 B : Inv w0 -> LiveI w0 -> TS (cs w0) -> dropped w0 = false -> finished w0 = false ->
       (forall m, rem w0 m <= B) -> 1 <= B ->
       (forall r j, j < N w0 -> TS (cs (rounds r w0)) -> aw (rounds r w0) j = true -> 1 <= rem (rounds r w0) (member (cs (rounds r w0)) j)) ->
